@@ -1,5 +1,5 @@
 #!/venv/bin/python
-"""Failing inputs of the genuine defects F15-F27 (DESIGN.md section 6), as runnable reproducers.
+"""Failing inputs of the genuine defects F15-F30 (DESIGN.md section 6), as runnable reproducers.
 
 Not a registered check (the checks are static): this script *runs* flox.  On the original snapshot (80f0cb3) every case fails as described;
 on the repaired tree every case prints OK.  Usage:  cd <a checkout of /repo> && /venv/bin/python /verif/defects/repro.py
@@ -95,6 +95,13 @@ case("F26 xarray_reduce func='first' along a non-grouper dim", f26, refusal_ok=T
 
 # F27
 case("F27 chunked nancumsum of int8", lambda: np.asarray(groupby_scan(da.from_array(np.array([100] * 6, dtype=np.int8), chunks=2), np.zeros(6, dtype=int), func="nancumsum")).tolist(), lambda r: r == [100, 200, 300, 400, 500, 600])
+
+# F28
+case("F28 labels of shape (1,), one reduced axis, flox engine", lambda: groupby_reduce(np.ones((2, 3)), np.array([0]), func="sum", engine="flox")[0].tolist(), lambda r: r == [[3.0], [3.0]])
+# F29
+case("F29 nancumsum of a lone NaN, every position its own group", lambda: groupby_scan(np.array([1.0, np.nan, 2.0]), np.array([0, 1, 2]), func="nancumsum").tolist(), lambda r: r == [1.0, 0.0, 2.0])
+# F30
+case("F30 negative quantile level", lambda: groupby_reduce(np.array([1.0, 5, 2, 9, 4, 7]), np.array([0, 0, 1, 1, 2, 2]), func="quantile", finalize_kwargs={"q": -0.5}, engine="flox")[0].tolist(), lambda r: False, refusal_ok=True)
 
 bad = 0
 for name, verdict in results:
